@@ -252,4 +252,29 @@ example : Reach .fixed cexJoinCfg exJoin ∧ exJoin.sh 0 = .jret ∧ exJoin.futs
     exJoin.results 1 = 1 ∧ exJoin.proc 1 = .exited :=
   ⟨reach_run exJoinTrace (by rfl), by decide, by decide, by decide, by decide, by decide⟩
 
+/-! ## the refinement pipeline (`solve_end_to_end`) -/
+
+/-- `solve_end_to_end` reports `unsat` only if the query hit a known unsat core or a solver job that it ran actually
+answered `unsat` (the first one, or — when refinement happened — the second one): a job that timed out, crashed,
+printed garbage or failed to start never becomes `unsat`, on neither step. -/
+theorem refined_timeout_is_unknown (coreHit isRefined changes : Bool) (r1 r2 : Reply)
+    (h : pipeline coreHit isRefined changes r1 r2 = .unsat) :
+    coreHit = true ∨ r1 = .unsat ∨
+    (r1 = .satInvalid ∧ isRefined = false ∧ changes = true ∧ r2 = .unsat) := by
+  cases coreHit <;> cases isRefined <;> cases changes <;> cases r1 <;> cases r2 <;> simp_all [pipeline, classify]
+
+/-- a refined job that exceeds its time limit makes the whole pipeline `unknown` -/
+theorem refined_hang_is_unknown (r1 : Reply) (changes isRefined : Bool)
+    (h : pipelineJobs false isRefined changes r1 = 2) : pipeline false isRefined changes r1 .hang = .unknown := by
+  cases isRefined <;> cases changes <;> cases r1 <;> simp_all [pipeline, pipelineJobs, classify]
+
+/-- … and a first job that exceeds its time limit is `unknown` without a second job -/
+theorem first_hang_is_unknown (isRefined changes : Bool) (r2 : Reply) :
+    pipeline false isRefined changes .hang r2 = .unknown ∧ pipelineJobs false isRefined changes .hang = 1 := by
+  cases isRefined <;> cases changes <;> simp [pipeline, pipelineJobs, classify]
+
+/-- non-vacuity: the refinement path with a timed-out second job, and one with a genuine unsat -/
+example : pipelineJobs false false true .satInvalid = 2 ∧ pipeline false false true .satInvalid .hang = .unknown ∧
+    pipeline false false true .satInvalid .unsat = .unsat ∧ pipeline false false true .satInvalid .crash = .err := by decide
+
 end HalmosVerif.Props.C17
